@@ -185,6 +185,8 @@ class Shell:
             return SyncCmd(w, vp, argv, kw, lambda: w.slurm.scancel(vp, argv), lat)
         if a0 == "simhook":
             return self._hook(vp, argv, kw)
+        if a0 == "simautoconfig":
+            return self._autoconfig(vp, argv, kw)
         if a0 == "git":
             return SyncCmd(w, vp, argv, kw, lambda: self._git(argv))
         if a0 in ("jade", "jade-internal"):
@@ -234,6 +236,38 @@ class Shell:
                    env={k: env.get(k) for k in ("JADE_RUNTIME_OUTPUT", "JADE_SUBMISSION_GROUP",
                                                   "SLURM_JOB_ID")})
             return rc, "", ""
+
+        return SyncCmd(w, vp, argv, kw, fn, dur)
+
+    def _autoconfig(self, vp, argv, kw):
+        """The user's auto-config script of pipeline stage k: reads the pipeline status file JADE
+        points it to (recorded as an observation) and writes config-stage<k>.json into its cwd."""
+        import json
+        import shutil
+
+        w = self.w
+        k = int(argv[1])
+        env = dict(kw["env"]) if kw.get("env") is not None else dict(vp.env)
+        spec = (w.scenario.get("pipeline") or {}).get("auto") or {}
+        dur = float(spec.get("dur", 0.0))
+        cwd = kw.get("cwd") or w.cwd_for(vp)
+
+        def fn():
+            sf = env.get("JADE_PIPELINE_STATUS_FILE")
+            status = None
+            try:
+                with seams.REAL["open"](sf) as f:
+                    ps = json.load(f)
+                status = {"stage_num": ps.get("stage_num"), "is_complete": ps.get("is_complete"),
+                          "return_codes": [s.get("return_code") for s in ps.get("stages", [])]}
+            except (OSError, ValueError, TypeError):
+                pass
+            w.emit("autoconfig", vp, stage=k, host=vp.host, role=vp.role, status=status,
+                   env={"JADE_PIPELINE_STATUS_FILE": w.rel(sf) if sf else None,
+                        "JADE_PIPELINE_OUTPUT_DIR": w.rel(env["JADE_PIPELINE_OUTPUT_DIR"]) if env.get("JADE_PIPELINE_OUTPUT_DIR") else None,
+                        "JADE_PIPELINE_STAGE_ID": env.get("JADE_PIPELINE_STAGE_ID")})
+            shutil.copyfile(os.path.join(w.shared_root, f"stage{k}_config.json"), os.path.join(cwd, f"config-stage{k}.json"))
+            return 0, "", ""
 
         return SyncCmd(w, vp, argv, kw, fn, dur)
 
@@ -356,4 +390,42 @@ class PsutilStub:
                                         "errout", "packets_recv", "packets_sent"))
 
     def Process(self, pid):
-        raise PsutilStub.NoSuchProcess(pid)
+        w = kernel.W
+        vp = w.cur if w is not None else None
+        if vp is None:
+            raise PsutilStub.NoSuchProcess(pid)
+        name = w.stat_proc_name(vp, pid)
+        if name is None:
+            raise PsutilStub.NoSuchProcess(pid)
+        return _StubProc(w, vp, pid, name)
+
+
+class _StubProc:
+    """psutil.Process of a live simulated job (or of a process registered by a component
+    simulation): serves seeded rss / cpu_percent series, recorded as ground truth."""
+
+    def __init__(self, w, vp, pid, name):
+        self.w, self.vp, self.pid, self.name = w, vp, pid, name
+
+    def _alive(self):
+        if self.w.stat_proc_name(self.vp, self.pid) is None:
+            raise PsutilStub.NoSuchProcess(self.pid)
+
+    def oneshot(self):
+        import contextlib
+
+        return contextlib.nullcontext()
+
+    def cpu_percent(self, interval=None):
+        self._alive()
+        if interval:
+            return 0.0  # the priming call of ResourceMonitor._get_process
+        return self.w.stat_sample(self.vp, "proc:" + self.name, "cpu_percent")
+
+    def memory_info(self):
+        self._alive()
+        return _NT(rss=int(self.w.stat_sample(self.vp, "proc:" + self.name, "rss") * 1000))
+
+    def children(self, recursive=False):
+        self._alive()
+        return [_NT(pid=c) for c in self.w.stat_children.get(self.pid, [])]
